@@ -343,6 +343,7 @@ pub fn cursor_op() -> BoxedStrategy<Op> {
         1 => Just(Op::Reset),
         3 => Just(Op::Current),
         1 => Just(Op::CloneSwitch),
+        1 => Just(Op::Swap),
     ]
     .boxed()
 }
